@@ -71,6 +71,7 @@ def _tags():
 def case_eko(log, opnames, folder=False):
     """ops applied in sequence to an EKO opened from an archive (or from an extracted folder)."""
     log.encode(*iofs.encoded_functions())
+    decide = iofs.Decider(log)
     ops = [OPS[n] for n in opnames]
     label = "+".join(opnames) + (" [folder]" if folder else "")
 
@@ -111,17 +112,17 @@ def case_eko(log, opnames, folder=False):
                 tag = "%s step %d (%s)%s" % (label, i + 1, name, " on a closed EKO" if is_closed else "")
                 if name not in NOT_STORES:
                     v = prove_formula(z3.Implies(prot, z3.BoolVal(raised is not None)), "%s: read-only/closed => the store attempt raises" % tag)
-                    log.decide(v, key="%s:raises" % site, replay=(MOD, "replay_eko", dict(kw, aspect="raises")))
+                    decide(v, key="%s:raises" % site, replay=(MOD, "replay_eko", dict(kw, aspect="raises")))
                     v = prove_formula(z3.Implies(prot, z3.BoolVal(len(writes) == 0)), "%s: read-only/closed => write log empty" % tag)
-                    log.decide(v, key="%s:nowrite" % site, replay=(MOD, "replay_eko", dict(kw, aspect="nowrite")))
+                    decide(v, key="%s:nowrite" % site, replay=(MOD, "replay_eko", dict(kw, aspect="nowrite")))
                     if not folder:
                         v = prove_formula(z3.Implies(z3.Not(prot), z3.BoolVal(raised is None and len(writes) > 0)),
                                           "%s: open and writable => the store is accepted and written" % tag)
-                        log.decide(v, key="%s:writable" % site, replay=(MOD, "replay_eko", dict(kw, aspect="writable")))
+                        decide(v, key="%s:writable" % site, replay=(MOD, "replay_eko", dict(kw, aspect="writable")))
                 after = persistent()
                 same = zeq(after, before) if (after is not None and before is not None) else z3.BoolVal(after is None and before is None)
                 v = prove_formula(z3.Implies(prot, same), "%s: read-only/closed => persistent content unchanged" % tag)
-                log.decide(v, key="%s:archive" % site, replay=(MOD, "replay_eko", dict(kw, aspect="archive")))
+                decide(v, key="%s:archive" % site, replay=(MOD, "replay_eko", dict(kw, aspect="archive")))
                 if name == "close" and raised is None:
                     is_closed = True
                 if name == "exit" and raised is None and not folder:
@@ -135,6 +136,7 @@ def case_eko(log, opnames, folder=False):
 def case_inventory(log, name):
     """Inventory.__setitem__ for one of the five inventories with both AccessConfigs flags symbolic."""
     log.encode(*iofs.encoded_functions())
+    decide = iofs.Decider(log)
 
     def run():
         fs = FS()
@@ -163,19 +165,19 @@ def case_inventory(log, name):
             prot = z3.Or(ro.e, z3.Not(op.e))
             kw = {"name": name}
             v = prove_formula(z3.Implies(prot, z3.BoolVal(raised is not None)), "Inventory[%s].__setitem__: readonly or not open => raises" % name)
-            log.decide(v, key="Inventory.__setitem__[%s]:raises" % name, replay=(MOD, "replay_inventory", dict(kw, aspect="raises")))
+            decide(v, key="Inventory.__setitem__[%s]:raises" % name, replay=(MOD, "replay_inventory", dict(kw, aspect="raises")))
             v = prove_formula(z3.Implies(prot, z3.BoolVal(not writes)), "Inventory[%s].__setitem__: readonly or not open => write log empty" % name)
-            log.decide(v, key="Inventory.__setitem__[%s]:nowrite" % name, replay=(MOD, "replay_inventory", dict(kw, aspect="nowrite")))
+            decide(v, key="Inventory.__setitem__[%s]:nowrite" % name, replay=(MOD, "replay_inventory", dict(kw, aspect="nowrite")))
             v = prove_formula(z3.Implies(z3.Not(prot), z3.BoolVal(raised is None and len(writes) > 0)),
                               "Inventory[%s].__setitem__: open and writable => accepted and written" % name)
-            log.decide(v, key="Inventory.__setitem__[%s]:writable" % name, replay=(MOD, "replay_inventory", dict(kw, aspect="writable")))
+            decide(v, key="Inventory.__setitem__[%s]:writable" % name, replay=(MOD, "replay_inventory", dict(kw, aspect="writable")))
             # exception kinds documented in access.py
             if raised is not None:
                 from eko.io.access import ClosedOperator, ReadOnlyOperator
 
                 want = z3.If(z3.Not(op.e), z3.BoolVal(isinstance(raised, ClosedOperator)), z3.BoolVal(isinstance(raised, ReadOnlyOperator)))
                 v = prove_formula(z3.Implies(prot, want), "Inventory[%s].__setitem__: ClosedOperator when not open, else ReadOnlyOperator" % name)
-                log.decide(v, key="Inventory.__setitem__[%s]:kind" % name, replay=(MOD, "replay_inventory", dict(kw, aspect="kind")))
+                decide(v, key="Inventory.__setitem__[%s]:kind" % name, replay=(MOD, "replay_inventory", dict(kw, aspect="kind")))
             log.twin("flags")
 
     _r, pm = explore(run, max_paths=64)
@@ -187,6 +189,7 @@ def case_flags(log):
     import eko.io.access as ac
 
     log.encode(ac.AccessConfigs.assert_open, ac.AccessConfigs.assert_writeable, ac.AccessConfigs.read.fget, ac.AccessConfigs.write.fget)
+    decide = iofs.Decider(log)
 
     def run():
         ro = ZBool(z3.Bool("readonly"))
@@ -195,11 +198,11 @@ def case_flags(log):
         r = acc.read
         rz = r.e if isinstance(r, ZBool) else z3.BoolVal(bool(r))
         v = prove_formula(rz == op.e, "AccessConfigs.read == open")
-        log.decide(v, key="AccessConfigs.read", replay=(MOD, "replay_flags", {"what": "read"}))
+        decide(v, key="AccessConfigs.read", replay=(MOD, "replay_flags", {"what": "read"}))
         wv = acc.write
         wz = wv.e if isinstance(wv, ZBool) else z3.BoolVal(bool(wv))
         v = prove_formula(wz == z3.And(op.e, z3.Not(ro.e)), "AccessConfigs.write == open and not readonly")
-        log.decide(v, key="AccessConfigs.write", replay=(MOD, "replay_flags", {"what": "write"}))
+        decide(v, key="AccessConfigs.write", replay=(MOD, "replay_flags", {"what": "write"}))
         for meth, want in (("assert_open", z3.Not(op.e)), ("assert_writeable", z3.Or(z3.Not(op.e), ro.e))):
             raised = None
             try:
@@ -207,7 +210,7 @@ def case_flags(log):
             except Exception as e:  # noqa
                 raised = e
             v = prove_formula(z3.BoolVal(raised is not None) == want, "AccessConfigs.%s raises iff %s" % (meth, want))
-            log.decide(v, key="AccessConfigs.%s" % meth, replay=(MOD, "replay_flags", {"what": meth}))
+            decide(v, key="AccessConfigs.%s" % meth, replay=(MOD, "replay_flags", {"what": meth}))
         log.twin("flags")
 
     _r, pm = explore(run, max_paths=64)
